@@ -81,6 +81,7 @@ def check(run):
     from .c06 import depends_on
     depends_on(run, "C02", {"FORMULA"})
     depends_on(run, "C03", {"NEW", "KEY", "COMPL"})
+    depends_on(run, "C06", {"COPY"})            # a copied explainer samples from its own (copied) storage
     # ROW clauses of the imputers
     for cls in imputer_classes(prog):
         if cls.name == "MarginalImputer":
